@@ -229,6 +229,32 @@ func runC01(e *Engine, r *Report, tier string) {
 				return
 			}
 			r.Ok("R2", ck, e.InstrPos(c), "dominated by set(0x24) and by Observed=true + set(0x17)")
+			// apply-once: when the dispatch sits in a loop (over the votes), no path leads from it back into the loop —
+			// otherwise every remaining vote re-runs the whole observe block for the same nonce
+			if h, loop := loopOf(c.Block()); h != nil {
+				seenB := map[*ssa.BasicBlock]bool{}
+				back := false
+				var dfs func(b *ssa.BasicBlock)
+				dfs = func(b *ssa.BasicBlock) {
+					if seenB[b] || back {
+						return
+					}
+					seenB[b] = true
+					for _, s2 := range b.Succs {
+						if s2 == h {
+							back = true
+							return
+						}
+						if loop[s2] {
+							dfs(s2)
+						}
+					}
+				}
+				dfs(c.Block())
+				r.Check(!back, "R2", ck+" apply-once", e.InstrPos(c), "after the dispatch the vote loop is left on every path (the event is applied once per tally)", "after the event handler was dispatched the vote loop continues: for every further vote the threshold is still met and the observe block (0x24 write, Observed, handler, event) runs again for the same nonce")
+			} else {
+				r.Ok("R2", ck+" apply-once", e.InstrPos(c), "the dispatch is not on a cycle of the tally's control flow: at most one application per tally")
+			}
 		})
 		if !found {
 			r.Fail("R2", e.FnKey(T)+" dispatch", e.Pos(T.Pos()), "tally function never reaches the attestation handler (anchor unresolved)")
